@@ -520,8 +520,10 @@ class TorControlProtocol(LineOnlyReceiver):
         values = [strargs[i] for i in range(1, len(strargs), 2)]
 
         def maybe_quote(s):
-            if ' ' in s:
-                return '"%s"' % s
+            # control-spec QuotedString: backslash and double-quote are
+            # escaped with a backslash
+            if ' ' in s or '\t' in s or '"' in s or '\\' in s:
+                return '"%s"' % s.replace('\\', '\\\\').replace('"', '\\"')
             return s
         values = [maybe_quote(v) for v in values]
         args = ' '.join(map(lambda x, y: '%s=%s' % (x, y), keys, values))
